@@ -2,6 +2,7 @@ package main
 
 import (
 	"fmt"
+	"go/constant"
 	"go/token"
 	"go/types"
 	"strings"
@@ -22,6 +23,13 @@ func origin(fn *ssa.Function) *ssa.Function {
 func (vc *VC) call(fr *Frame, c *ssa.CallCommon, instr ssa.Value, pos token.Pos) SV {
 	if sc := c.StaticCallee(); sc != nil && origin(sc).Name() == "gcOld" {
 		return vc.evalOld(fr, c.Args[0])
+	}
+	if sc := c.StaticCallee(); sc != nil && origin(sc).Name() == "gcOldAt" {
+		lab := ""
+		if k, ok := c.Args[0].(*ssa.Const); ok && k.Value != nil {
+			lab = constant.StringVal(k.Value)
+		}
+		return vc.evalOldAt(fr, c.Args[1], lab)
 	}
 	var args []SV
 	for _, a := range c.Args {
@@ -221,6 +229,21 @@ func (vc *VC) applyContract(fr *Frame, callee *ssa.Function, fi *FuncInfo, args 
 	for k, f := range vc.eng.infos {
 		if f == fi {
 			vc.usedContracts[k] = true
+		}
+	}
+	// lock order across the call: every lock the callee may acquire (statically, through its
+	// own callees too) must rank above every lock held here
+	if vc.pure == 0 && len(vc.st.Held) > 0 {
+		for _, lt := range vc.eng.acquiresOf(callee, map[*ssa.Function]bool{}) {
+			r, ok := vc.eng.rankOf(lt)
+			if !ok {
+				continue
+			}
+			for _, h := range vc.st.Held {
+				if hr, ok := vc.eng.rankOf(h.inv.Type); ok && hr >= r {
+					vc.oblige("lock:rank:"+h.inv.Type+"<"+lt+":via:"+cname, []string{"C08"}, "false")
+				}
+			}
 		}
 	}
 	cargs := append(append([]SV{}, bind...), args...)
@@ -695,6 +718,41 @@ func (vc *VC) evalOld(fr *Frame, v ssa.Value) SV {
 		vc.st, vc.curFrame = savedSt, savedFrame
 	}
 	return vc.val(fr.oldRun, v)
+}
+
+// evalOldAt: like evalOld, in the state snapshot taken by `at call f#k mark label`.
+func (vc *VC) evalOldAt(fr *Frame, v ssa.Value, label string) SV {
+	if vc.inOldAt[label] {
+		return vc.val(fr, v) // already evaluating in that snapshot
+	}
+	m := vc.marks[label]
+	if m == nil {
+		vc.fail("oldat(%q, ...): no such mark was reached on this path", label)
+	}
+	if fr.oldRunAt == nil {
+		fr.oldRunAt = map[string]*Frame{}
+	}
+	if fr.oldRunAt[label] == nil {
+		savedSt, savedFrame := vc.st, vc.curFrame
+		vc.st = &State{Cond: "true", Heap: m.Heap, Alloc: m.Alloc, Locks: m.Locks, Ghost: m.Ghost}
+		vc.curFrame = nil
+		vc.pure++
+		vc.inline++
+		savedStack := vc.stack
+		vc.stack = nil
+		if vc.inOldAt == nil {
+			vc.inOldAt = map[string]bool{}
+		}
+		vc.inOldAt[label] = true
+		vc.execFunc(fr.fn, fr.args, fr.bind, nil, false, nil)
+		vc.inOldAt[label] = false
+		vc.stack = savedStack
+		vc.pure--
+		vc.inline--
+		fr.oldRunAt[label] = vc.lastFrame
+		vc.st, vc.curFrame = savedSt, savedFrame
+	}
+	return vc.val(fr.oldRunAt[label], v)
 }
 
 // ---- opaque specification functions -------------------------------------------------
